@@ -130,6 +130,9 @@ def hash_exec(rng):
                 for k in extra: L.append("hrem %d %d" % (t, k))
             if variant == 2:
                 L.append("hresize %d %d" % (t, rng.choice([10, 50, 120])))
+            if variant in (1, 2, 3):                # bindings overwritten and restored: same value, another history
+                for (k, v) in rng.sample(order, min(3, len(order))):
+                    L.append("hset %d %d %d" % (t, k, rng.choice(it))); L.append("hset %d %d %d" % (t, k, v))
             g.append(t); t += 1
         groups.append(g[:3]); groups.append([g[3]])
         kinds_of[g[0]] = "table"; kinds_of[g[3]] = "tree"
